@@ -199,8 +199,15 @@ impl ExprReply {
                     if prec < Precedence::Mul {
                         literal!("(");
                     }
-                    for expr in exprs.iter() {
-                        recurse(expr, parts, Precedence::Pow);
+                    for (i, expr) in exprs.iter().enumerate() {
+                        // `a -b` would be read back as a subtraction.
+                        if i > 0 && expr.is_signed() {
+                            literal!("(");
+                            recurse(expr, parts, Precedence::Equals);
+                            literal!(")");
+                        } else {
+                            recurse(expr, parts, Precedence::Pow);
+                        }
                     }
                     if prec < Precedence::Mul {
                         literal!(")");
@@ -219,13 +226,13 @@ impl ExprReply {
                 }
                 Expr::BinOp(ref binop) => {
                     let op_prec = Precedence::from(binop.op);
-                    let succ = Precedence::next(binop.op);
                     if prec < op_prec {
                         literal!("(");
                     }
-                    recurse(&binop.left, parts, succ);
+                    let (left_prec, right_prec) = Precedence::operands(binop.op);
+                    recurse(&binop.left, parts, left_prec);
                     literal!(binop.op.symbol());
-                    recurse(&binop.right, parts, op_prec);
+                    recurse(&binop.right, parts, right_prec);
                     if prec < op_prec {
                         literal!(")");
                     }
@@ -258,7 +265,8 @@ impl ExprReply {
                         literal!("(");
                     }
                     let mut sub = vec![];
-                    recurse(expr, &mut sub, Precedence::Div);
+                    // The parser reads a juxtaposition after `of`, nothing looser.
+                    recurse(expr, &mut sub, Precedence::Mul);
                     parts.push(ExprParts::Property {
                         property: property.to_owned(),
                         subject: sub,
